@@ -282,6 +282,10 @@ def generate(seed, tier):
     for n in range(1, 19 if thorough else 13):
         for s in range(0, min(n, 7) + 1):
             g.add("fn.mixed_steps_tabulation", "V tab %d %d" % (n, s))
+    # one entry of the tabulated planner against the memoised one, at sizes where writing the whole table out is too much (values
+    # beyond 32 bits with a single unit)
+    for n, s in [(40, 4), (150, 1), (66000, 1), (70000, 1)] + ([(120, 6), (100000, 1)] if thorough else []):
+        g.add("fn.mixed_steps_tabulation", "V tabmemo %d %d" % (n, s))
     for n in range(2, 31 if thorough else 19):
         for ram in range(1, 4):
             for disk in range(1, 4):
@@ -301,6 +305,14 @@ def generate(seed, tier):
         g.add("fn.mxrr_close_formula", "V mxrr %d %d %d %d" % (rng.randint(1, 6), rng.randint(1, 5), rng.randint(0, 60), rng.randint(0, 60)))
         g.add("fn.argmin", "V argmin " + " ".join(str(rng.randint(0, 6)) for _ in range(rng.randint(1, 9))))
         g.add("fn.beta", "V beta %d %d" % (rng.randint(0, 9), rng.randint(0, 9)))
+    # the closed form of the period on a grid of cost ratios (wd + rd) / uf, small and large, and the binomials it is made of
+    for x in range(0, 9):
+        for y in range(0, 41 if thorough else 25):
+            g.add("fn.beta", "V beta %d %d" % (x, y))
+    for cm in (1, 2, 3, 4):
+        for ratio in list(range(0, 24)) + list(range(50, 72, 2)) + list(range(160, 224, 6)) + list(range(330, 500, 17 if thorough else 34)):
+            g.add("fn.mxrr_close_formula", "V mxrr %d 1 %d %d" % (cm, ratio // 2, ratio - ratio // 2))
+            g.add("fn.mxrr_close_formula", "V mxrr %d 2 %d %d" % (cm, ratio, ratio))
     for kind in ("revolve", "disk", "periodic", "hrevolve"):
         for N in range(1, 15 if thorough else 10):
             for r in (1, 2, 3):
